@@ -572,6 +572,9 @@ pub fn check(ctx: &Ctx) -> i32 {
         for k in 0..n_acts {
             let when = Trigger::AtFrame(20 + k * 40 + rr.below(30) as i32);
             let m = match rr.below(8) {
+                // the redundant disconnect once more, tens of frames after the real one (the first repetition comes in the
+                // same frame as the real call)
+                _ if disconnect_done && rr.chance(0.6) => Misuse::DisconnectHandle(remote_h),
                 0 => Misuse::InputForHandle(rr.pick(&[remote_h, np, np + 5, 99])),
                 1 => {
                     if s.peers[node].len() >= 2 {
@@ -623,7 +626,7 @@ pub fn check(ctx: &Ctx) -> i32 {
     extra.insert("enumerated_subspace".into(), json!({"menu": format!("{:?}", m), "max_length": maxlen, "sequences": total, "start_methods": 3, "exhaustive": true}));
     let meta = Meta {
         level: "exploration",
-        rule: format!("bounded-exhaustive: all {total} sequences of <= {maxlen} builder calls from a menu of {} calls over small value domains, each followed by each of the three start_* methods, compared with a reference validity predicate written from the documentation (which builder call fails, whether start succeeds, error kind InvalidRequest); every accepted session is polled/advanced (200/40/12 frames depending on sequence length) on a simulated socket without panicking. Run-time misuse: 5 scripted calls (input for a remote/spectator/unknown handle, advance_frame with all or just one local input missing (the inputs already given must stay valid for the retry), disconnect of a local/unknown/already disconnected player, delay change and stats for the wrong player type or unknown handle) at random points of random valid runs (also while the session is still synchronising) must return the documented error, and the run must be identical (request lists, events per address, errors, states of every node) to the twin run in which the failing calls are omitted (a bare poll_remote_clients() replacing a failing advance_frame); the same for SyncTestSession. Non-trivial: enumeration jobs; misuse runs in which at least one call was rejected. Distinct: job.", m.len()),
+        rule: format!("bounded-exhaustive: all {total} sequences of <= {maxlen} builder calls from a menu of {} calls over small value domains, each followed by each of the three start_* methods, compared with a reference validity predicate written from the documentation (which builder call fails, whether start succeeds, error kind InvalidRequest); every accepted session is polled/advanced (200/40/12 frames depending on sequence length) on a simulated socket without panicking. Run-time misuse: 5 scripted calls (input for a remote/spectator/unknown handle, advance_frame with all or just one local input missing (the inputs already given must stay valid for the retry), disconnect of a local/unknown/already disconnected player (repeated in the same frame and again tens of frames later), delay change and stats for the wrong player type or unknown handle) at random points of random valid runs (also while the session is still synchronising) must return the documented error, and the run must be identical (request lists, events per address, errors, states of every node) to the twin run in which the failing calls are omitted (a bare poll_remote_clients() replacing a failing advance_frame); the same for SyncTestSession. Non-trivial: enumeration jobs; misuse runs in which at least one call was rejected. Distinct: job.", m.len()),
         assumptions: vec!["the reference predicate encodes the rustdoc of SessionBuilder and docs/sessions.md".into(), "input delay and prediction window within 0..=16".into(), "held on the executions produced, not verified".into()],
         floor_nontrivial: if ctx.quick() { 200 } else { 3000 },
         exhaustive: None,
